@@ -211,6 +211,8 @@ func runC09(c *Check) {
 	c.MinInstances("C09-R2", 4)
 	ruleRetrieveHelper(c, p)
 	ruleNilGuard(c, p)
+	c.Doc("C09-R6", "EO: the hand-off of an admitted item to sync cannot be skipped: blocking send, or select with cancellation as the only alternative.")
+	ruleHandOffNotDroppable(c, p)
 }
 
 // producedCodes: StatusCode constants appearing as Code in RetrieveWithHelpers' return literals.
@@ -620,4 +622,48 @@ func ruleNilGuard(c *Check, p *Prog) {
 		keys = append(keys, k)
 	}
 	sort.Strings(keys)
+}
+
+// ruleHandOffNotDroppable (C09-R6): the hand-off of an admitted item to sync is a blocking send
+// or a select whose only alternatives are cancellation; a default (or any other alternative)
+// would drop a genuine blob while the scan moves on.
+func ruleHandOffNotDroppable(c *Check, p *Prog) {
+	rule := "C09-R6"
+	n := 0
+	for _, l := range []string{"RetrieveLoop", "HeaderStoreRetrieveLoop", "DataStoreRetrieveLoop"} {
+		root := p.MustFunc(mgrM(l))
+		g := BuildECFG(p, root, ExpandOpts{MaxDepth: 5})
+		c.NoteGraph(g)
+		for _, sn := range g.Select(func(x *Node) bool { si := classifySink(x); return si != nil && si.what == "send" }) {
+			n++
+			inst := l + " ⟂ hand-off in " + fnShort(sn.Ctx.Fn)
+			pos := p.InstrPos(sn.In)
+			sel, isSel := sn.In.(*ssa.Select)
+			if !isSel {
+				c.OK(rule, inst, fnName(sn.Ctx.Fn), pos, "plain blocking send: the item cannot be dropped (stop behaviour is C13's concern)", true)
+				continue
+			}
+			bad := ""
+			if !sel.Blocking {
+				bad = "the select has a default branch"
+			}
+			for _, st := range sel.States {
+				if st.Dir == types.SendOnly {
+					continue
+				}
+				ch := TermOf(st.Chan, sn.Ctx)
+				if !(ch.Op == "invoke" && ch.Name == "(context.Context).Done") {
+					bad = "the select has an alternative other than cancellation: " + trunc(ch.String(), 60)
+				}
+			}
+			if bad == "" {
+				c.OK(rule, inst, fnName(sn.Ctx.Fn), pos, "send in a select whose only alternative is cancellation", true)
+			} else {
+				c.Bad(rule, inst, fnName(sn.Ctx.Fn), pos, bad+": when the sync queue is full a genuine item is dropped although it was already marked DA-included and the scan moves past its height", nil)
+			}
+		}
+	}
+	if n < 4 {
+		c.Unk(rule, "hand-off-sends", "", "", fmt.Sprintf("anchor lost: %d hand-off sends found (4 confirmed by hand)", n))
+	}
 }
